@@ -81,7 +81,7 @@ func joinTokens(al []string, toks []int) string {
 // includes the empty text) under every option vector in opts.
 func (w *wk) textLevel(n int, full bool, opts []int) { w.textLevelVia(n, full, opts, []string{""}) }
 
-var otherEntries = []string{"eval", "exprfunc", "repl"}
+var otherEntries = []string{"eval", "exprfunc", "repl", "bytes", "reader", "portion0", "portion"}
 
 func (w *wk) textLevelVia(n int, full bool, opts []int, entries []string) {
 	al := alphabet(!full)
@@ -158,6 +158,8 @@ func entryName(e string) string {
 		return "ExprFuncOptions + Call"
 	case "repl":
 		return "FileOptions.Parse + ExecREPLChunk"
+	case "bytes", "reader", "portion0", "portion":
+		return "ExecFileOptions, source given as " + e
 	}
 	return "ExecFileOptions"
 }
@@ -171,6 +173,14 @@ func (w *wk) runSource(cs *Case, src string, budget int, outcomePrefix string) {
 		switch cs.Entry {
 		case "":
 			_, err = starlark.ExecFileOptions(fileOptions(cs.Opt), th, "c02.star", src, w.predeclared())
+		case "bytes": // the source handed over as a []byte
+			_, err = starlark.ExecFileOptions(fileOptions(cs.Opt), th, "c02.star", []byte(src), w.predeclared())
+		case "reader": // as an io.Reader
+			_, err = starlark.ExecFileOptions(fileOptions(cs.Opt), th, "c02.star", strings.NewReader(src), w.predeclared())
+		case "portion0": // as a portion of a larger file whose position was left zero
+			_, err = starlark.ExecFileOptions(fileOptions(cs.Opt), th, "c02.star", syntax.FilePortion{Content: []byte(src)}, w.predeclared())
+		case "portion": // as a portion that starts at line 1000, column 70
+			_, err = starlark.ExecFileOptions(fileOptions(cs.Opt), th, "c02.star", syntax.FilePortion{Content: []byte(src), FirstLine: 1000, FirstCol: 70}, w.predeclared())
 		case "eval":
 			_, err = starlark.EvalOptions(fileOptions(cs.Opt), th, "c02.star", src, w.predeclared())
 		case "exprfunc":
